@@ -2,6 +2,7 @@
 from .inv_base import InvProp
 from ..prng import Rng
 from .. import geninv as GI
+from .. import geninv2 as GI2
 from .. import genv as G
 
 
@@ -64,6 +65,18 @@ class C01(InvProp):
             yield GI.gen_inventory(r, n_classes=r.range(2, 6), shape=r.choice(["tree", "dag", "cyclic", "chain"]),
                                    nested=r.chance(1, 3), n_nodes=r.range(1, 2), refnames=r.choice([0, 0, 60, 90]),
                                    param_refs=r.choice([0, 40]))
+            if i % 4 == 1:
+                # one class file under two names (symlinked file or directory) with relative includes inside
+                c = GI.gen_inventory(r, n_classes=r.range(2, 6), shape=r.choice(["tree", "dag", "chain"]), nested=True,
+                                     relative=r.choice([50, 100]), n_nodes=r.range(1, 3))
+                if GI2.add_aliases(r, c):
+                    c["fam"] = "aliases"
+                    yield c
+            if i % 8 == 3:
+                c = GI.gen_inventory(r, n_classes=r.range(1, 3), shape="tree", n_nodes=1)
+                GI2.relref_groups(r, c, n_nodes=(2, 6))
+                c["fam"] = "relref_groups"
+                yield c
 
     def nontrivial(self, req, impl, reply):
         nclasses = sum(1 for f in req["files"] if f["path"].startswith("classes/"))
